@@ -22,7 +22,15 @@ const (
 	c01Canary   = "CANARY-7731-S3CR3T"
 )
 
-var c01Sinks = []string{"text", "vtext", "attr", "attr2", "bound", "vbind", "boundm", "class", "style", "boundstatic"}
+var c01Sinks = []string{"text", "vtext", "attr", "attr2", "bound", "vbind", "boundm", "class", "style", "boundstatic",
+	// the {{ }} text sink under parents the HTML parser treats specially (raw text, RCDATA, foreign content, table/select scoping)
+	"text@noscript", "text@xmp", "text@iframe", "text@noembed", "text@noframes", "text@textarea", "text@title", "text@pre",
+	"text@option", "text@td", "text@svgtext", "text@button", "text@h1", "text@a", "text@li", "text@code", "vtext@textarea", "vtext@noscript"}
+
+// c01RawTextTags: the parser does not decode character references inside these
+// (scripting enabled), so the literal value cannot be read back; skeleton, spill
+// and canary are still judged.
+var c01RawTextTags = map[string]bool{"noscript": true, "xmp": true, "iframe": true, "noembed": true, "noframes": true}
 var c01Constructs = []string{"plain", "if", "else", "for-root", "for-root2", "for-child", "for-tmpl", "for-obj",
 	"inc-static", "inc-bound", "inc-scope", "slot-default", "slot-named", "slot-prop", "layout-var", "layout-page"}
 var c01Nbhs = []string{"none", "plain", "entity", "attrs"}
@@ -70,6 +78,25 @@ func c01SinkEl(sink, nbh, e, extra string) (el string, sinkAttr string, lDec, rD
 	}
 	open := `<p data-s="1"` + sib + extra
 	lit = true
+	if kind, tag, ok := strings.Cut(sink, "@"); ok {
+		pre, post := "", ""
+		switch tag {
+		case "option":
+			pre, post = "<select>", "</select>"
+		case "td":
+			pre, post = "<table><tbody><tr>", "</tr></tbody></table>"
+		case "svgtext":
+			pre, post, tag = `<svg viewBox="0 0 1 1">`, "</svg>", "text"
+		case "li":
+			pre, post = "<ul>", "</ul>"
+		}
+		o := pre + "<" + tag + ` data-s="1"` + sib + extra
+		lit = !c01RawTextTags[tag]
+		if kind == "vtext" {
+			return o + ` v-text="` + e + `">old</` + tag + ">" + post, "", "", "", lit
+		}
+		return o + ">" + lS + "{{ " + e + " }}" + rS + "</" + tag + ">" + post, "", lD, rD, lit
+	}
 	switch sink {
 	case "text":
 		return open + `>` + lS + `{{ ` + e + ` }}` + rS + `</p>`, "", lD, rD, true
@@ -145,8 +172,9 @@ func c01Build(sink, construct, nbh string) c01Tpl {
 		panic("construct " + construct)
 	}
 	if construct == "inc-static" || construct == "inc-bound" {
-		// keep literal judgement, but values that decode as JSON are exempted in Exec
-		t.litOK = true
+		// keep literal judgement (where the sink allows it); values that decode as JSON are exempted in Exec
+		_, _, _, _, lit := c01SinkEl(sink, nbh, "p", "")
+		t.litOK = lit
 	}
 	return t
 }
@@ -176,6 +204,7 @@ var c01Dict = []string{
 	"<", ">", "&", `"`, "'", "`", "=", "/", "\\", "%", "\t", "\n", "a\nb", "  two  spaces  ", "<b>bold</b>", "a<b", "a>b", "a&b", "a&amp;b", "AT&T;", "x&y;z", "&a;", "1;2", ";&", "&;&;",
 	"é", "中文", "\U0001F600", "\u200b", "\u00a0", "\ufeff", "á", "﹤script﹥", "&#x26;lt;", "&#38;", "%3Cscript%3E", "\\u003c", "${secret}", "#{secret}", "<%= secret %>", "[[ secret ]]", "{% secret %}",
 	`{"a":1}`, `[1,2]`, `{"a":"<b>"}`, `["{{ secret }}"]`, "{}", "[]", "{a", "[a", "true", "0", "null", "-1", "1e3", "0x10",
+	"</noscript><img src=x onerror=1>", "</xmp><b>x</b>", "</iframe><script>1</script>", "</noembed><i>", "</noframes><i>", "</textarea><i>x</i>", "</title><i>x</i>", "</pre><hr>", "</option></select><img src=x>", "</td></tr></table><img src=x>", "</text></svg><img src=x>", "</button><button formaction=x>", "</h1><h1 id=x>", "</a><a href=x>", "</li></ul><ol>", "</code><code id=x>", "</NOSCRIPT><p id=x>", "</xmp ><b>", "</noscript\n><b>", "<!--</noscript>--><b>",
 	"data-s=\"1\"", " data-after=1 ", "zqxj", "zqxjzqxj", "<zqxj>", "on", "st", "color:red", "color:red;display:none", "a:b;c:d", "x:{{ secret }}", "display:none",
 }
 
